@@ -218,8 +218,32 @@ def gen_ci(r, n):
     return p, ch
 
 
+def _wit(fn, W, seed, **kw):
+    c = {'fn': fn, 'n': len(W), 'family': 'coq-witness', 'W': W, 'gamma': '1', '_W': W, '_g': F(1), 'seed': seed}
+    c.update(kw)
+    return c
+
+
+# the concrete witnesses of the `_refuted` lemmas (Proofs/ModularityQ.v, Proofs/ModularityGain.v) are replayed on the
+# implementation first: with these seeds the implementation takes exactly the move sequences quoted in the lemmas
+WITNESSES = {
+    'modularity_louvain_dir': [
+        _wit('modularity_louvain_dir', [[0, 1, 2], [0, 0, 2], [0, 1, 0]], 914),                        # q / bookkeeping
+        _wit('modularity_louvain_dir', [[0, 0, 0, 0], [0, 0, 0, 2], [1, 0, 0, 0], [0, 0, 2, 0]], 782),  # monotone
+    ],
+    # the input on which modularity_finetune_dir lowered Q before the repair d18f46d (regression guard)
+    'modularity_finetune_dir': [
+        _wit('modularity_finetune_dir', [[0, 1, 4], [0, 0, 0], [1, 0, 0]], 0, ci=[1, 1, 3], ci_kind='witness'),
+    ],
+}
+_queue = {}
+
+
 def make_case(ctx, fn, n=None):
     """a random applicable input for routine fn (None if the draw is outside the routine's domain)"""
+    q = _queue.setdefault((id(ctx), fn), [dict(c) for c in WITNESSES.get(fn, [])])
+    if q and n is None:
+        return q.pop(0)
     r = ctx.rng
     R = ROUTINES[fn]
     n = n or r.randint(3, 9)
